@@ -320,13 +320,55 @@ theorem missing_coordinate_refused {idxs : List (List (Coord × Cell))} {k : Coo
     (h : ∃ d ∈ idxs, lookup d k = none) : gatherCells idxs k = .error .valueError :=
   gatherCells_missing h
 
--- OPEN blend_value_composed
---   theorem blend_value_composed (h : blend (t0 :: rest) w method idx = .ok out) (canonical t0) :
---     ∀ i f, out[i].values.get? f =
---       blendField m (the values of f in the cells of every triangle at t0[i].coord) wl[i] (idx i f)
---   i.e. the composition of `blend_structure` with the per-field theorems (`linear_value`,
---   `linear_convex`, `linear_agree`, `mixture_membership`, `mixture_scalar_passthrough`), which are
---   proved at the level of one field / one cell, and with `percell_alignment` for `wl[i]`.
---   Checked on every implementation output by Spec.C16.linearValueOk / mixtureMembership.
+/-! ### 7. the values of the result, composed through the loop -/
+
+/-- **blend_value_composed.** On a canonical first triangle, output cell `n` is obtained from the
+cells found AT THE COORDINATE of the first triangle's `n`-th cell in every triangle's index (one
+per triangle, in the order of the triangles), with the `n`-th entry `wl[n]` of the normalised weight
+list (`percell_alignment`, `global_weights`, `list_weights` say what that is), and every field value
+of it is `blendField` of the inputs' values of that field — to which `linear_value`,
+`linear_convex`, `linear_agree`, `mixture_membership`, `mixture_scalar_passthrough` apply. -/
+theorem blend_value_composed {t0 : List Cell} {rest : List (List Cell)} {w : Weights}
+    {method : String} {idx : Nat → String → List Nat} {out : List Cell}
+    (h : blend (t0 :: rest) w method idx = .ok out)
+    (hnd : (t0.map Cell.coord).Nodup) (hs : t0.Pairwise (fun a b => Cell.le a b)) :
+    ∃ m wl, blendPrep (t0 :: rest) w method = .ok (m, t0, wl) ∧ wl.length = t0.length ∧
+      out.length = t0.length ∧
+      ∀ n (h0 : n < t0.length) (h1 : n < out.length) (h2 : n < wl.length),
+        ∃ cs, gatherCells ((t0 :: rest).map indexTriangle) t0[n].coord = .ok cs ∧
+          List.Forall₂ (fun d c => lookup d t0[n].coord = some c) ((t0 :: rest).map indexTriangle) cs ∧
+          ∀ f v, (f, v) ∈ out[n].values → blendField m (fieldVals cs f) wl[n] (idx n f) = .ok v := by
+  unfold blend at h
+  split at h
+  · cases h
+  · rename_i m t wl hprep
+    obtain ⟨rfl, hwl⟩ := blendPrep_ok hprep
+    split at h
+    · cases h
+    · rename_i cells hloop
+      have hloop' := hloop
+      rw [List.map_cons, indexTriangle_nodup hnd] at hloop'
+      have hst := forall₂_of_map_left (blendLoop_structure hloop' (by simp [hwl]) (by
+        intro p hp
+        obtain ⟨c, hc, rfl⟩ := List.mem_map.mp hp
+        exact lookup_pairs hnd hc))
+      have hsorted := pairwise_le_of_coords (forall₂_imp' (fun _ _ h => h.1) hst) hs
+      have hout : out = cells := by
+        unfold Triangle.ofCells at h
+        split at h
+        · cases h; rw [List.mergeSort_of_pairwise hsorted]
+        · cases h
+      subst hout
+      have hlen : out.length = t.length := forall₂_length' hst
+      refine ⟨m, wl, hprep, hwl, hlen, ?_⟩
+      intro n h0 h1 h2
+      rw [indexTriangle_nodup hnd] at hloop
+      obtain ⟨cs, hg, ho, hb⟩ := blendLoop_indexed hloop (by simp [hwl]) n (by simpa using h0) h2
+      have hk : ((t.map pairOf)[n]'(by simpa using h0)).1 = t[n].coord := by simp [pairOf]
+      rw [hk] at hg
+      refine ⟨cs, hg, gatherCells_spec hg, ?_⟩
+      intro f v hmem
+      have := blendCells_values hb f v hmem
+      simpa using this
 
 end Bermuda.Properties.C16
